@@ -244,7 +244,9 @@ CallClauses(W, S, ev) ==
   IN
   [ roots_alive        |-> \A r \in roots : (r \in DOMAIN W.objs => W.objs[r].top \in S.alive),
     pre_is_spec_state  |-> ev.pre = Proj(S),
-    outcome_known      |-> IF Fired(ev) THEN ev.exc = "Injected"
+    \* a raising with-body is an open zone for the outcome: the library still solves with the statements
+    \* recorded so far before the user exception propagates, and that solve may fail first
+    outcome_known      |-> IF Fired(ev) THEN (ev.exc = "Injected" \/ (FaultPh(ev) = "body" /\ ev.exc = "SolveFailure"))
                            ELSE ev.exc \in {"none", "SolveFailure"},                              \* C02, C16
     mid_only_by_callbacks |-> (CbSeq(ev, "pre") = << >>) => mid = Proj(S),
     nonrand_frozen     |-> /\ DOMAIN ev.post.v \ SzElems(W, usz)
@@ -266,10 +268,10 @@ CallClauses(W, S, ev) ==
                               ELSE CbObjs(ev, "pre") = pre_objs,                                   \* C17
     post_once_each     |-> /\ NoDup(CbSeq(ev, "post")) /\ CbObjs(ev, "post") \subseteq pre_objs
                            /\ ok => CbObjs(ev, "post") = pre_objs,
-    post_only_after_ok_solve |-> (ev.exc = "SolveFailure" \/ FaultPh(ev) \in {"pre", "body"}) => CbSeq(ev, "post") = << >>,
+    post_only_after_ok_solve |-> ((ev.exc = "SolveFailure" /\ FaultPh(ev) # "body") \/ FaultPh(ev) = "pre") => CbSeq(ev, "post") = << >>,
     pre_before_post    |-> \A i, j \in 1..Len(ev.cbs) : (ev.cbs[i].ph = "post" /\ ev.cbs[j].ph = "pre") => j < i,
     post_sees_final    |-> FaultPh(ev) = "none" => \A c \in SeqSet(CbSeq(ev, "post")) : c.seen = ev.post.v,
-    post_sees_solution |-> \A c \in SeqSet(CbSeq(ev, "post")) :
+    post_sees_solution |-> FaultPh(ev) # "body" => \A c \in SeqSet(CbSeq(ev, "post")) :
                               HardAll(W, Sm, call, c.seen, ev.post.sz) # "F",
     idle_after         |-> Idle(ev.stk) ]                                                         \* C16
 CallEffect(W, S, ev) == [S EXCEPT !.vals = ev.post.v, !.sz = ev.post.sz]
@@ -333,7 +335,10 @@ Diag(W, S, ev) ==
     [] OTHER -> [none |-> TRUE]
 
 (* ------------------------------ dispatch ------------------------------- *)
+\* a field whose read raises (e.g. an enum field holding a non-enumerator) makes the projection unreadable
+Unreadable(ev, k) == k \in DOMAIN ev /\ "__error__" \in DOMAIN ev[k].v
 Clauses(W, S, ev) ==
+  IF Unreadable(ev, "post") \/ Unreadable(ev, "pre") THEN [ every_field_readable_in_type |-> FALSE ] ELSE
   CASE ev.op = "construct" -> ConstructClauses(W, S, ev)
     [] ev.op = "set"       -> SetClauses(W, S, ev)
     [] ev.op = "rand_mode" -> RandModeClauses(W, S, ev)
@@ -344,7 +349,7 @@ Clauses(W, S, ev) ==
     [] ev.op = "probe"     -> ProbeClauses(W, S, ev)
     [] OTHER -> [ known_event |-> FALSE ]
 Effect(W, S, ev) ==
-  CASE ev.op = "construct" -> ConstructEffect(W, S, ev)
+  CASE ev.op = "construct" -> IF ev.exc = "none" THEN ConstructEffect(W, S, ev) ELSE S
     [] ev.op = "set"       -> SetEffect(W, S, ev)
     [] ev.op = "rand_mode" -> RandModeEffect(W, S, ev)
     [] ev.op = "cmode"     -> CModeEffect(W, S, ev)
